@@ -316,12 +316,11 @@ def _nested(prog: Program, res: Result):
         t = n.test
         if isinstance(t, ast.Compare) and len(t.ops) == 1 and isinstance(t.left, ast.Name) and isinstance(t.comparators[0], ast.Name):
             l_, r_ = t.left.id, t.comparators[0].id
-            # 'previous < current' (or 'current > previous'): previous is the name re-assigned from current in the same if/else
-            prev_names = {s_.targets[0].id for s_ in ast.walk(n) if isinstance(s_, ast.Assign) and len(s_.targets) == 1 and isinstance(s_.targets[0], ast.Name) and isinstance(s_.value, ast.Name)}
-            cur = {s_.value.id for s_ in ast.walk(n) if isinstance(s_, ast.Assign) and len(s_.targets) == 1 and isinstance(s_.targets[0], ast.Name) and isinstance(s_.value, ast.Name)}
-            if isinstance(t.ops[0], (ast.Lt, ast.LtE)) and l_ in prev_names and r_ in cur:
+            # 'previous < current' (or 'current > previous'): previous is the name re-assigned from current somewhere in the loop body
+            pairs = {(s_.targets[0].id, s_.value.id) for s_ in ast.walk(loop) if isinstance(s_, ast.Assign) and len(s_.targets) == 1 and isinstance(s_.targets[0], ast.Name) and isinstance(s_.value, ast.Name)}
+            if isinstance(t.ops[0], (ast.Lt, ast.LtE)) and (l_, r_) in pairs:
                 oks = True
-            if isinstance(t.ops[0], (ast.Gt, ast.GtE)) and r_ in prev_names and l_ in cur:
+            if isinstance(t.ops[0], (ast.Gt, ast.GtE)) and (r_, l_) in pairs:
                 oks = True
     res.ob("R05.3", "the scan over lists stops when the drilling increases (old < new)", oks, prog.loc(fi, loop))
     if not oks:
